@@ -122,6 +122,20 @@ class AutoW(AutoParameterObject):
         self.workers = workers
         self.batch_size = batch_size
 
+class AutoL(AutoParameterObject):
+    """keeps the argument as given in the private attribute; the public property gives a normalised, lossy view"""
+    def __init__(self, columns, limit=3):
+        self._columns = columns
+        self._limit = limit
+
+    @property
+    def columns(self):
+        return sorted(set(self._columns))
+
+    @property
+    def limit(self):
+        return min(self._limit, 10)
+
 class AutoRegressor(AutoParameterObject):
     """a base class whose constructor its subclasses inherit"""
     def __init__(self, alpha, max_iter=100):
@@ -147,7 +161,7 @@ class Plain:
         self.kwargs = kwargs
 '''
     exec(src, m.__dict__)
-    for c in ('AutoA', 'AutoB', 'AutoC', 'Hooked', 'AutoS', 'AutoK', 'AutoV', 'AutoP', 'AutoD', 'AutoX', 'AutoW', 'AutoRegressor', 'AutoRidge', 'AutoLasso', 'User', 'Plain'):
+    for c in ('AutoA', 'AutoB', 'AutoC', 'Hooked', 'AutoS', 'AutoK', 'AutoV', 'AutoP', 'AutoD', 'AutoX', 'AutoW', 'AutoL', 'AutoRegressor', 'AutoRidge', 'AutoLasso', 'User', 'Plain'):
         getattr(m, c).__module__ = name
     sys.modules[name] = m
     return m
@@ -166,6 +180,7 @@ AUTO_SIGS = {
     'AutoX': dict(params=[('source', None), ('workers', [1]), ('batch_size', [8])], ignore=['verbose', 'debug', 'workers', 'batch_size'], dropdef=[]),
     'AutoW': dict(params=[('lr', None), ('workers', [1]), ('batch_size', [8])], ignore=['verbose', 'debug'], dropdef=[]),
     **{c: dict(params=[('alpha', None), ('max_iter', [100])], ignore=['verbose', 'debug'], dropdef=[]) for c in ('AutoRegressor', 'AutoRidge', 'AutoLasso')},
+    'AutoL': dict(params=[('columns', None), ('limit', [3])], ignore=['verbose', 'debug'], dropdef=[]),
     'AutoC': dict(params=[('step', None), ('debug_max_rows', [0]), ('verbose_labels', [False]), ('debug', [0])],
                   ignore=['verbose', 'debug'], dropdef=[]),
 }
